@@ -43,6 +43,26 @@ def r20a(ctx):
                 ctx.unclassified(cid, c.loc, f"class not in the reference tree; it is {fam}")
             else:
                 ctx.bad(cid, c.loc, f"{q} was not {fam} on the reference tree and now is (bases: {[ast.unparse(b) for b in c.node.bases]}): {why} - none of which was confirmed for this operator")
+    # classes across which no parent was ever rewritten (no _simplify_up rule): one that starts to rewrite its parents
+    # (an override removed, a `return` replaced by a call of the inherited rule) acquires projection / filter /
+    # selection push-downs that were never confirmed for it
+    from sa.families import inert_simplify_up
+
+    ref_inert = set(_REF.get("inert_simplify_up", []))
+    now_inert = inert_simplify_up(model)
+    ni = 0
+    for q in sorted(ref_inert):
+        c = next((k for k in model.expr_classes() if k.qual == q), None)
+        if c is None:
+            continue
+        ni += 1
+        cid = f"{q}:family:inert_simplify_up"
+        if q in now_inert:
+            ctx.ok(cid, c.loc)
+        else:
+            mem = c.provider("_simplify_up")
+            ctx.bad(cid, mem.cls.module.loc(mem.node) if mem is not None else c.loc, f"{q} did not rewrite its parents on the reference tree (no _simplify_up rule, or one that only returns None) and now resolves _simplify_up to {mem.cls.qual if mem else '?'}._simplify_up, which does: projections / filters / selections are now pushed across an operator for which that was never confirmed")
+    ctx.floor("classes without a parent-rewriting rule", ni, 45)
     ctx.floor("family memberships", n, 250)
 
 
